@@ -102,7 +102,7 @@ def cfg_defines(cfg):
     return d
 
 TIERS = {
-    'quick': ['main', 'std11', 'std17', 'tmove', 'aprop', 'aeq', 'pocs', 'pair_lt', 'pair_gt', 'n0', 'u8', 'triv', 'triv_na', 'kf_inline_gt_max'],
+    'quick': ['main', 'std11', 'std17', 'tmove', 'aprop', 'aeq', 'pocs', 'pocma', 'pair_lt', 'pair_gt', 'n0', 'u8', 'triv', 'triv_na', 'kf_inline_gt_max'],
     'thorough': ['main', 'std11', 'std14', 'std17', 'std23', 'tmove', 'aprop', 'aeq', 'pocs', 'pair_lt', 'pair_gt', 'n0_full', 'u8', 'triv', 'triv_na', 'kf_inline_gt_max', 'pocca', 'pocma', 'pocca_pocma', 'pocca_pocs', 'pocma_pocs'],
 }
 
@@ -126,7 +126,7 @@ _TMOVE_Q = ['svb_emplace_into_reallocation__pE_pcE', 'svb_shrink_to_size', 'svb_
 _GLOBAL = {'main': _LEAVES_Q + _CORE, 'tmove': _TMOVE_Q}
 QUICK = {
     'C01': {'main': _CORE + _CORE2 + _PUB + ['sv_at__ul', 'sv_at__ul_c', 'sv_op_index__ul', 'sv_front__v', 'sv_back__v']},
-    'C02': {'main': _CORE + _OBS + ['sv_shrink_to_fit'], 'tmove': _TMOVE_Q, 'n0': ['svb_append_element__pcE', 'sv_inlined']},
+    'C02': {'main': _CORE + _OBS + ['sv_shrink_to_fit'], 'tmove': _TMOVE_Q, 'n0': ['svb_append_element__pcE', 'sv_inlined'], 'pocma': ['svb_move_assign_default__psvb'], 'pocs': ['svb_swap_default']},
     'C03': _GLOBAL, 'C04': dict(_GLOBAL, main=_LEAVES_Q + _CORE + ['svb_move_assign_default__psvb'], pair_lt=['svb_move_assign_default__psvbM']), 'C06': dict(_GLOBAL, main=_LEAVES_Q + _CORE + ['svb_swap_default']),
     'C12': dict(tmove=['svb_append_element__pcE', 'svb_request_capacity'], kf_inline_gt_max=['svb_append_element__pcE'], main=['ai_uninitialized_fill__pE_pE_pcE', 'ai_external_range_length__pcE_pcE', 'svb_unchecked_calculate_new_capacity', 'svb_append_element__pcE', 'svb_append_copies', 'svb_request_capacity',
                       'svb_emplace_into_reallocation__pE_pcE', 'svb_assign_with_copies', 'svb_ctor__ul_pcE_pcA', 'svb_ctor__pcE_pcE_pcA', 'svb_append_range__strong_pcE_pcE',
@@ -140,7 +140,8 @@ QUICK = {
                      'svb_append_range__strong_FI_FI', 'svb_emplace_into_reallocation__pE_pcE', 'sv_push_back__pcE', 'sv_push_back__pE', 'sv_emplace_back__pcE', 'sv_reserve',
                      'sv_shrink_to_fit', 'sv_resize__ul', 'sv_append__pcE_pcE'],
             'tmove': _TMOVE + ['svb_resize_with__ul', 'svb_append_element__pE']},
-    'C07': {'main': _ALLOC + ['svb_ctor__ul_pcE_pcA', 'svb_ctor__pcA', 'svb_ctor__pcsvb_pcA'], 'aprop': _ALLOC, 'aeq': _ALLOC, 'pocs': _ALLOC},
+    'C07': {'main': _ALLOC + ['svb_ctor__ul_pcE_pcA', 'svb_ctor__pcA', 'svb_ctor__pcsvb_pcA'], 'aprop': _ALLOC, 'aeq': _ALLOC, 'pocs': _ALLOC,
+            'pocma': ['svb_move_assign_default__psvb', 'svb_move_assign__psvb', 'svb_copy_assign__pcsvb']},
     'C09': {'main': ['svb_move_assign_default__psvb', 'svb_swap_default', 'svb_ctor__psvb', 'svb_move_assign_unequal_no_propagate__psvb', 'svb_swap_unequal_no_propagate', 'svb_dtor', 'svb_ctor__pcA'],
             'pocs': ['svb_swap__psvb', 'svb_swap_default', 'svb_move_assign_default__psvb'], 'aeq': ['svb_swap_default', 'svb_move_assign_default__psvb'],
             'pair_lt': ['svb_move_assign_default__psvbM']},
